@@ -14,7 +14,14 @@ representative per class of its input partition, in a closed stub world:
 * an argparse model (add_argument / parse_args / print_help / error, FileType opens while arguments are parsed),
 * for the CLI the two library functions are rule-supplied stubs that return a text naming the arguments they received,
   so "what the tool writes is what the library returns for the content of the input file" is decided independently of
-  what the library does.
+  what the library does; the option values of the representative command lines are chosen so that every usual
+  normalisation (sorting, de-duplication, case folding, stripping) of a value on its way to the library is visible,
+* sets of the evaluated program iterate in one fixed arbitrary order (HSet): a result that depends on set order is the
+  same in every run of the check, whatever PYTHONHASHSEED is,
+* state: the calls of a sequence are evaluated in one world (memoising decorators and module-level containers live in
+  it) and compared with the same calls in fresh worlds; mutable parts of a result are emptied by the 'caller' between
+  the calls.  Tests and handlers that were taken are recorded as events - used only to explain a violation (the test
+  that separates the wrong rows, the handler that swallowed an exception), never to decide one.
 
 Nothing of rnapolis is imported or executed; only literals, operators, builtins on folded values and the stubs are
 interpreted.  A construct outside the supported fragment ends the evaluation as 'not evaluable' (the caller then falls
@@ -1667,6 +1674,7 @@ def check_replace(chk, fi) -> Optional[str]:
     edits = [
         ("repeated values, '.' and '?' are values like any other", doc, ("cat", "b", "WXYZ")),
         ("exactly as many symbols as distinct values", doc, ("cat", "a", "vwxyz")),
+        ("alphabet not in code-point order: the symbols are handed out by position", doc, ("cat", "b", "zYx1")),
         ("first item of the first category", doc, ("head", "x", "0123")),
         ("a value equal to a symbol", [["B1", [["cat", ["a"], [["Y"], ["X"], ["Y"]]]]]], ("cat", "a", "XY")),
         ("category without rows", [["B1", [["cat", ["a", "b"], []]]]], ("cat", "a", "XY")),
